@@ -152,6 +152,16 @@ def run(rep, tier):
     bounded(rep, tier)
     # a failing URI found by the sweep is the replayed input for the deductive obligations that failed with it
     sweep = [r for r in rep.results if r.oid == "C09.uri-sweep" and r.status == VIOLATED]
+    failing = [r for r in rep.results if r.klass == "P" and (r.status == VIOLATED or (r.status == UNDECIDED and r.cand))]
+    if failing and not sweep and tier == "quick":
+        # a deductive obligation failed: look harder for the input that shows it
+        from vrf.bounded.pathsweep import uri_sweep
+        n3, bad3 = uri_sweep(3, module_directory=False)
+        if bad3:
+            rep.add(Result("C09.uri-sweep.deep", VIOLATED, klass="B", backend="native-audit", function="mako.lookup:TemplateLookup.get_template",
+                           bound="URIs of <= 3 segments", evaluations=n3, detail="a URI reaches outside the configured directory: %r" % bad3[0],
+                           witness=bad3[0], replayed=True, replay={"failures": bad3[:3]}))
+            sweep = [rep.results[-1]]
     if sweep:
         for r in rep.results:
             if r.klass == "P" and not r.replayed and (r.status == VIOLATED or (r.status == UNDECIDED and r.cand)):
